@@ -187,3 +187,19 @@ func ReplayS(sc SScenario, choices []int) {
 		fmt.Printf("outcome=%s key=%s what=%s\n", o, k, w)
 	}
 }
+
+// RunSeq executes a sequential (single-thread) body under the scheduler with an effectively
+// unlimited horizon. A body that was cut short would make the surrounding loop vacuous, so a
+// horizon or divergence verdict is a tool error; a panic or deadlock of the code under test is
+// reported as a violation under keyPrefix.
+func RunSeq(r *vres.Report, keyPrefix string, body func(s *vrt.Sched)) *vrt.Sched {
+	s := vrt.Run(vrt.Options{Horizon: 1 << 30}, body)
+	switch s.Verdict.Kind {
+	case vrt.OK:
+	case vrt.Panic, vrt.Deadlock:
+		r.Violate(keyPrefix+"/"+strings.ToLower(s.Verdict.Kind.String()), fmt.Sprintf("sequential run ended with %s: %s", s.Verdict.Kind, s.Verdict.Detail), 1, nil)
+	default:
+		ToolError("sequential run did not complete: %s %s", s.Verdict.Kind, s.Verdict.Detail)
+	}
+	return s
+}
